@@ -786,7 +786,9 @@ func (fr *Frame) execMapUpdate(x *ssa.MapUpdate) {
 	// a map held in a local variable that is captured by a closure: the variable is a cell;
 	// write the updated map back to it (the cell is the only alias inside the verified function)
 	if ld, ok := x.Map.(*ssa.UnOp); ok && ld.Op == token.MUL {
-		if p, ok := fr.get(ld.X).(PtrV); ok && !p.Cell.Param {
+		if p, ok := fr.get(ld.X).(PtrV); ok && (!p.Cell.Param || (fr.top && fr.con != nil && fr.con.AssertsOnly)) {
+			// (a mutator executed for its assertions only: the map is a field of the receiver
+			// and the update is written back to that field)
 			fr.store(p, nm)
 			return
 		}
